@@ -1483,6 +1483,9 @@ class Interp:
                     if len(e.args) == 1 and not e.keywords:
                         args.append(StarArgs(v))  # f(*seq) with a sequence of symbolic length: opaque callees only
                         continue
+                    if fn in (max, min) and not e.keywords and a is e.args[-1] and not any(isinstance(x, ast.Starred) for x in e.args[:-1]):
+                        args.append(StarArgs(v))  # max(a, b, *seq) / min(...): modelled in builtins_model._extremum_star
+                        continue
                     raise Unsupported("*args of symbolic length")
                 args.extend(Q.seq_get(v, i) for i in range(n))
             else:
